@@ -486,6 +486,37 @@ func (e *execState) runBlock(bi int, blk *Block, prev *Snap) (*blockObs, bool) {
 	for _, f := range blk.Faults {
 		res.Stats.FaultsCfg[f.Kind]++
 	}
+	// probe: how many start / end / release instants does this block's time step pass?
+	{
+		passed := 0
+		for _, a := range e.model.Auctions {
+			switch a.Status {
+			case StStandby:
+				if a.StartNs <= blk.TimeNs {
+					passed++
+					if a.EndTimes[0] <= blk.TimeNs {
+						passed++
+					}
+				}
+			case StStarted:
+				if a.EndTimes[len(a.EndTimes)-1] <= blk.TimeNs {
+					passed++
+				}
+			case StVesting:
+				for _, q := range a.Queue {
+					if !q.Released && q.ReleaseNs <= blk.TimeNs {
+						passed++
+					}
+				}
+			}
+			if a.Status == StStandby && a.StartNs == blk.TimeNs || a.Status == StStarted && a.EndTimes[len(a.EndTimes)-1] == blk.TimeNs {
+				res.Stats.Probes["block_exactly_on_boundary"]++
+			}
+		}
+		if passed >= 2 {
+			res.Stats.Probes["block_passed_2plus_boundaries"]++
+		}
+	}
 
 	// ---- model first: gives the sequence numbers to sign with
 	bfTx := faultOf(blk, FBankFail)
